@@ -280,6 +280,18 @@ def lift_api(beh, idx):
             ops.append({"op": "stats_read", "r": h["r"]})
         elif o == "match":
             ops.append({"op": "match", "seg": h["seg"], "pairs": [{"field": "a", "term": [120]}, {"field": "_id", "term": [48]}]})
+        elif o == "def_fields":
+            continue          # the executor keeps ONE slice per requested list: dv_open with equal lists hands in the same object
+        elif o == "dv_open":
+            ops.append({"op": "dv_open", "seg": h["seg"], "r": 300 + h["r"], "fields": list(h["fields"])})
+        elif o == "dv_visit":
+            ops.append({"op": "dv_visit", "r": 300 + h["r"], "n": h["n"]})
+        elif o == "dit_open":
+            ops.append({"op": "dit_open", "seg": h["seg"], "field": h["field"], "r": 400 + h["r"], "reuse_dict": (idx + k) % 2 == 0})
+        elif o == "dit_next":
+            ops.append({"op": "dit_next", "r": 400 + h["r"]})
+        elif o == "dit_close":
+            ops.append({"op": "dit_close", "r": 400 + h["r"]})
         ops.append({"op": "digest"})
     tags = ["api"]
     if any(h["op"] == "merge" and any(h["drops"]) for h in beh["hist"]):
@@ -288,6 +300,10 @@ def lift_api(beh, idx):
         tags.append("api_prealloc")
     if any(h["op"] == "stats_add" for h in beh["hist"]):
         tags.append("api_stats_add")
+    if any(h["op"] == "dit_close" for h in beh["hist"]):
+        tags.append("api_dit_close")
+    if sum(1 for h in beh["hist"] if h["op"] == "dv_open") >= 2:
+        tags.append("api_dv_two_readers")
     return {"name": "E2-api-%d" % idx, "norm": "code", "universe": ["_id", "a", "b", "c", "zz"],
             "batches": batches, "ops": ops, "tags": tags}
 
